@@ -200,6 +200,14 @@ func (u *Unit) enterBlock(st *State, fr *Frame, b, pred *ssa.BasicBlock) {
 	st.Trace = append(st.Trace, fmt.Sprintf("%s#%d", fr.Fn.Name(), b.Index))
 	loops := u.loopsOf(fr.Fn)
 	if li, ok := loops[b]; ok {
+		if u.refute {
+			if _, started := fr.Unroll[b]; !started {
+				if fr.Unroll == nil {
+					fr.Unroll = map[*ssa.BasicBlock]int{}
+				}
+				fr.Unroll[b] = 0
+			}
+		}
 		if n, unrolling := fr.Unroll[b]; unrolling {
 			// exact bounded exploration of a loop that has no invariant (see below)
 			if n >= unrollBound {
@@ -207,6 +215,21 @@ func (u *Unit) enterBlock(st *State, fr *Frame, b, pred *ssa.BasicBlock) {
 				return
 			}
 			fr.Unroll[b] = n + 1
+			// loops nested in this one start afresh in every iteration of it
+			for h := range fr.Unroll {
+				if h != b && li.blocks[h] {
+					delete(fr.Unroll, h)
+				}
+			}
+			if u.refute {
+				// the invariants (those that say what the loop has achieved, not how it keeps
+				// its books) as assertions about the exact state at this visit
+				class := "inv-step"
+				if n == 0 {
+					class = "inv-entry"
+				}
+				u.loopInvariants(st, fr, li, class)
+			}
 			u.exec(st, fr, b, 0, pred)
 			return
 		}
@@ -217,6 +240,7 @@ func (u *Unit) enterBlock(st *State, fr *Frame, b, pred *ssa.BasicBlock) {
 			return
 		}
 		u.loopInvariants(st, fr, li, "inv-entry")
+		st.Cuts = append(append([]string(nil), st.Cuts...), li.label)
 		if fr.Parent != nil && u.contractFor(fr.Fn) == nil && u.uncontracted[fr.Fn.Name()] == fr.Fn {
 			// A loop in a helper that has no contract, hence no invariant. Two explorations:
 			// first the paths that leave the loop within unrollBound iterations, executed
@@ -490,10 +514,27 @@ func (u *Unit) step(st *State, fr *Frame, in ssa.Instruction, pred *ssa.BasicBlo
 		fn := x.Fn.(*ssa.Function)
 		c := u.newObject(st, "clo_"+fn.Name())
 		clo := &Closure{Fn: fn, Term: c}
-		u.Axiom(Eq(App("clofn", SInt, c), IntLit(int64(u.P.fnID(fn)))))
+		// A bound-method value x.M and a closure that only forwards its parameters to x.M
+		// (x a captured variable that is never reassigned) are the same function: both get
+		// the identity "bound M" with x as binding 0, so that wrapping a method value in a
+		// forwarding literal (or the reverse) is not a change.
+		bm, brecv, isBound := u.boundMethodOf(st, fr, x)
+		if isBound {
+			u.Axiom(Eq(App("clofn", SInt, c), IntLit(int64(-u.P.fnID(bm)))))
+			u.Fun("clobind0_V", []Sort{SV}, SV)
+			u.Axiom(Eq(App("clobind0_V", SV, c), brecv))
+		} else {
+			u.Axiom(Eq(App("clofn", SInt, c), IntLit(int64(u.P.fnID(fn)))))
+		}
 		for i, b := range x.Bindings {
 			bv := u.val(st, fr, b)
 			clo.Bindings = append(clo.Bindings, bv)
+			if isBound {
+				if bv.Cell == nil && bv.Tuple == nil {
+					u.chanLeak(st, bv.T)
+				}
+				continue
+			}
 			if bv.Cell == nil && bv.Tuple == nil {
 				u.chanLeak(st, bv.T)
 				fnm := fmt.Sprintf("clobind%d_%s", i, bv.T.Sort)
@@ -1048,4 +1089,185 @@ func (u *Unit) rangeNext(st *State, fr *Frame, x *ssa.Next) {
 func isInvalid(t types.Type) bool {
 	b, ok := t.(*types.Basic)
 	return ok && b.Kind() == types.Invalid
+}
+
+
+// forwardedMethod: fn's body is `return recv.M(params...)` where recv is either fn's only
+// binding used as receiver (a bound-method wrapper made by go/ssa) or the value of a
+// captured variable (a hand-written forwarding literal). fv is the index of the free
+// variable holding the receiver; viaCell says the free variable is the variable's address.
+func forwardedMethod(fn *ssa.Function) (m *ssa.Function, fv int, viaCell bool, ok bool) {
+	if len(fn.Blocks) != 1 || fn.Recover != nil {
+		return nil, 0, false, false
+	}
+	// go/ssa's naive form spills parameters and results to locals: follow values through them
+	cells := map[*ssa.Alloc]ssa.Value{}
+	vals := map[ssa.Value]ssa.Value{}
+	res := func(v ssa.Value) ssa.Value {
+		if r, ok := vals[v]; ok {
+			return r
+		}
+		return v
+	}
+	fvIndex := func(f *ssa.FreeVar) int {
+		for k, x := range fn.FreeVars {
+			if x == f {
+				return k
+			}
+		}
+		return -1
+	}
+	var call *ssa.Call
+	var recvLoad ssa.Value
+	fv = -1
+	for _, in := range fn.Blocks[0].Instrs {
+		switch x := in.(type) {
+		case *ssa.DebugRef, *ssa.RunDefers:
+		case *ssa.Alloc:
+			if x.Heap {
+				return nil, 0, false, false
+			}
+			cells[x] = nil
+		case *ssa.Store:
+			a, isLocal := x.Addr.(*ssa.Alloc)
+			if !isLocal {
+				return nil, 0, false, false
+			}
+			if _, known := cells[a]; !known {
+				return nil, 0, false, false
+			}
+			cells[a] = res(x.Val)
+		case *ssa.UnOp:
+			if x.Op != token.MUL {
+				return nil, 0, false, false
+			}
+			switch src := x.X.(type) {
+			case *ssa.Alloc:
+				v, known := cells[src]
+				if !known || v == nil {
+					return nil, 0, false, false
+				}
+				vals[x] = v
+			case *ssa.FreeVar:
+				if call != nil || recvLoad != nil {
+					return nil, 0, false, false
+				}
+				recvLoad, fv, viaCell = x, fvIndex(src), true
+			default:
+				return nil, 0, false, false
+			}
+		case *ssa.Call:
+			if b, isB := x.Call.Value.(*ssa.Builtin); isB && strings.HasPrefix(b.Name(), "ssa:") {
+				vals[x] = x
+				continue
+			}
+			if call != nil || x.Call.IsInvoke() {
+				return nil, 0, false, false
+			}
+			m = x.Call.StaticCallee()
+			if m == nil || m.Signature.Recv() == nil || len(x.Call.Args) != 1+len(fn.Params) {
+				return nil, 0, false, false
+			}
+			r0 := res(x.Call.Args[0])
+			if recvLoad != nil {
+				if r0 != recvLoad {
+					return nil, 0, false, false
+				}
+			} else if f, isFV := r0.(*ssa.FreeVar); isFV {
+				fv = fvIndex(f)
+			} else {
+				return nil, 0, false, false
+			}
+			for j, p := range fn.Params {
+				if res(x.Call.Args[j+1]) != ssa.Value(p) {
+					return nil, 0, false, false
+				}
+			}
+			call = x
+		case *ssa.Extract:
+			if call == nil || x.Tuple != ssa.Value(call) {
+				return nil, 0, false, false
+			}
+		case *ssa.Return:
+			if call == nil || fv < 0 {
+				return nil, 0, false, false
+			}
+			n := m.Signature.Results().Len()
+			if len(x.Results) != n {
+				return nil, 0, false, false
+			}
+			for k, r := range x.Results {
+				r = res(r)
+				if n == 1 {
+					if r != ssa.Value(call) {
+						return nil, 0, false, false
+					}
+					continue
+				}
+				e, isE := r.(*ssa.Extract)
+				if !isE || e.Tuple != ssa.Value(call) || e.Index != k {
+					return nil, 0, false, false
+				}
+			}
+			return m, fv, viaCell, true
+		default:
+			return nil, 0, false, false
+		}
+	}
+	return nil, 0, false, false
+}
+
+// boundMethodOf: the closure made by x is (equivalent to) the method value recv.M.
+func (u *Unit) boundMethodOf(st *State, fr *Frame, x *ssa.MakeClosure) (*ssa.Function, Term, bool) {
+	fn := x.Fn.(*ssa.Function)
+	m, fv, viaCell, ok := forwardedMethod(fn)
+	if !ok || fv >= len(x.Bindings) {
+		return nil, Term{}, false
+	}
+	if !viaCell {
+		bv := u.val(st, fr, x.Bindings[fv])
+		if bv.Cell != nil || bv.Tuple != nil {
+			return nil, Term{}, false
+		}
+		return m, bv.T, true
+	}
+	// the captured variable must keep its value for as long as the closure lives: it is
+	// stored to once (its initialisation) in the enclosing function and never by a closure
+	a, isAlloc := x.Bindings[fv].(*ssa.Alloc)
+	if !isAlloc || a.Referrers() == nil {
+		return nil, Term{}, false
+	}
+	stores := 0
+	for _, r := range *a.Referrers() {
+		switch r := r.(type) {
+		case *ssa.Store:
+			if r.Addr == ssa.Value(a) {
+				stores++
+			} else {
+				return nil, Term{}, false // the address itself is stored somewhere
+			}
+		case *ssa.MakeClosure:
+			cf := r.Fn.(*ssa.Function)
+			for k, b := range r.Bindings {
+				if b == ssa.Value(a) && k < len(cf.FreeVars) && freeVarWritten(cf, cf.FreeVars[k]) {
+					return nil, Term{}, false
+				}
+			}
+		case *ssa.UnOp, *ssa.DebugRef:
+		default:
+			return nil, Term{}, false
+		}
+	}
+	if stores != 1 {
+		return nil, Term{}, false
+	}
+	bv := u.val(st, fr, x.Bindings[fv])
+	if bv.Cell != nil {
+		t, _ := u.cellLoad(fr, bv.Cell)
+		return m, t, true
+	}
+	if bv.Tuple != nil {
+		return nil, Term{}, false
+	}
+	return m, u.load(st, bv.T, derefType(a.Type())), true
 }
